@@ -11,6 +11,7 @@ import CompmechVerif.Gen.Conn.BFycte
 import CompmechVerif.Gen.Conn.SB
 import CompmechVerif.Spec.Interface
 import CompmechVerif.Spec.InterfacePSD
+import CompmechVerif.Spec.ConnAssemblyPSD
 import CompmechVerif.Model.PenaltyConstantsLemmas
 import CompmechVerif.Core.OpSpecTactics
 import Mathlib.Tactic.FinCases
@@ -217,6 +218,246 @@ example {ι : Type} (s : Finset ι) (pan : ι → Pan) (ro : ι → Fin 3) (ix i
         (ix A) (ix B) (iy A) (iy B) :=
   conn_psd_sb unitConn monoJ monoE (by norm_num [unitConn]) (by norm_num [unitConn]) (by norm_num [unitConn])
     (by norm_num [unitConn]) mono mono (-1) 1 (-1) 1 monoJ_surf s pan ro ix iy c
+
+/-! ### the ASSEMBLED connection matrix `get_k0_conn()` of one connection is positive semi-definite
+
+`k0Conn ps [conn]` is `get_k0_conn(finalize=True)` of Model/Assembly.lean (C13) for an assembly with the panels `ps` (series orders) and the single
+connection `conn` between the panels number `conn.p1`, `conn.p2` — block `11` at the range of `p1`, block `22` at the range of `p2`, the coupling
+block `12` at (rows of `p1`, columns of `p2`) or, when `p1` follows `p2`, its transpose at (rows of `p2`, columns of `p1`)
+(`connection_blocks_placement`, `coupling_block_upper` of Props/C13), then `finalize_symmetric_matrix`.
+
+HYPOTHESES `hk11, hk12, hk22` (stated explicitly, NOT proved): the stand-alone COO lists of the three kernels are the loop nests of
+Model/ConnLoop.lean — `connNestDiag` = the panel nest with the `row > col` skip over ONE panel's `(m, n)`, `connNest12` = the rectangular nest
+without skip, rows over panel 1, columns over panel 2; `yx` = loop order of the `xcte` kinds — each loop body writing, at `(ro, co)`, the value of
+the regenerated `entry ro co` in the context `cctxAt base J E i k j l` of its loop indices (= `connEntry` on that block).  That a kernel called with
+`(row0, col0)` returns this list shifted there is the assumption of Model/Assembly.lean, proved for these nests in Props/C13
+(`conn_kernel_placement`).  Conclusion: `vᵀ K v ≥ 0` for EVERY amplitude vector `v` of the assembly, for any position of the two panels in the
+list, in either order. -/
+
+open Compmech.Asm Compmech.PanelLoop in
+/-- GENERAL FORM, for any three block kernels `b11, b12, b22`: if the per-pair values `connEntry` are symmetric on the two diagonal blocks (`hsym`)
+and positive semi-definite over the degrees of freedom of the two panels (`hpsd`: the conclusion of the `conn_psd_*` theorems with `s = univ`), then
+the finalized assembled connection matrix is positive semi-definite. -/
+theorem get_k0_conn_psd (ps : List (Nat × Nat)) (conn : Conn ℝ) (h1 : conn.p1 < ps.length) (h2 : conn.p2 < ps.length)
+    (hne : conn.p1 ≠ conn.p2) (m1 n1 m2 n2 : Nat) (hm1 : ps.getD conn.p1 (0, 0) = (m1, n1))
+    (hm2 : ps.getD conn.p2 (0, 0) = (m2, n2)) (yx : Bool)
+    (b11 b12 b22 : Fin 3 → Fin 3 → CCtx ℝ → ℝ) (base : CCtx ℝ) (J : ConnIntegrals) (E : ConnEvals)
+    (hk11 : conn.k11 = connNestDiag yx m1 n1 0 fun ro co i k j l => connEntry b11 b12 b22 base J E .p1 .p1 ro co i k j l)
+    (hk12 : conn.k12 = connNest12 yx m1 n1 m2 n2 0 0 fun ro co i k j l => connEntry b11 b12 b22 base J E .p1 .p2 ro co i k j l)
+    (hk22 : conn.k22 = connNestDiag yx m2 n2 0 fun ro co i k j l => connEntry b11 b12 b22 base J E .p2 .p2 ro co i k j l)
+    (hsym : ∀ (p : Pan) (ro co : Fin 3) (i k j l : Nat),
+      connEntry b11 b12 b22 base J E p p ro co i k j l = connEntry b11 b12 b22 base J E p p co ro k i l j)
+    (hpsd : ∀ w : ConnDof m1 n1 m2 n2 → ℝ, 0 ≤ ∑ X, ∑ Y, w X * w Y *
+      connEntry b11 b12 b22 base J E X.pan Y.pan X.ro Y.ro X.ix Y.ix X.iy Y.iy)
+    (v : Nat → ℝ) :
+    0 ≤ ∑ r ∈ Finset.range (getSize ps), ∑ c ∈ Finset.range (getSize ps), v r * toFun (k0Conn ps [conn]) r c * v c :=
+  k0Conn_psd_aux ps conn h1 h2 hne m1 n1 m2 n2 hm1 hm2 yx b11 b12 b22 base J E hk11 hk12 hk22 hsym hpsd v
+
+open Compmech.Asm Compmech.PanelLoop ConnPSDExample in
+/-- non-vacuity of the general form: `hsym`, `hpsd` delivered for the regenerated `SSycte` kernels by the per-pair theorems
+(`connEntry_line_diag_symm`, `connEntry_line_psd` = `conn_psd_ssy` with `s = univ`); `p1` listed after `p2` -/
+example (v : Nat → ℝ) :
+    0 ≤ ∑ r ∈ Finset.range 27, ∑ c ∈ Finset.range 27, v r *
+      toFun (k0Conn [(2, 1), (1, 3), (2, 2)]
+        [⟨2, 0,
+          connNestDiag false 2 2 0 fun ro co i k j l => SSycte.b11.entry ro co (cctxAt unitConn monoJ monoE i k j l),
+          connNest12 false 2 2 2 1 0 0 fun ro co i k j l => SSycte.b12.entry ro co (cctxAt unitConn monoJ monoE i k j l),
+          connNestDiag false 2 1 0 fun ro co i k j l => SSycte.b22.entry ro co (cctxAt unitConn monoJ monoE i k j l)⟩]) r c * v c :=
+  get_k0_conn_psd [(2, 1), (1, 3), (2, 2)] _ (by decide) (by decide) (by decide) 2 2 2 1 rfl rfl false
+    SSycte.b11.entry SSycte.b12.entry SSycte.b22.entry unitConn monoJ monoE rfl rfl rfl
+    (connEntry_line_diag_symm _ _ _ unitConn monoJ monoE .x .y unitConn.a1 mono (-1) 1 (monoJ_line _) (ssyOps unitConn)
+      (penaltyW unitConn)
+      (fun ro co i k j l => ssy_11 (cctxAt unitConn monoJ monoE i k j l) (by norm_num [unitConn, cctxAt])
+        (by norm_num [unitConn, cctxAt]) (by norm_num [unitConn, cctxAt]) ro co)
+      (fun ro co i k j l => ssy_22 (cctxAt unitConn monoJ monoE i k j l) (by norm_num [unitConn, cctxAt])
+        (by norm_num [unitConn, cctxAt]) (by norm_num [unitConn, cctxAt]) ro co))
+    (fun w => conn_psd_ssy unitConn monoJ monoE (by norm_num [unitConn]) (by norm_num [unitConn]) (by norm_num [unitConn])
+      (by norm_num [unitConn]) (by norm_num [unitConn]) (by norm_num [unitConn]) mono (-1) 1 (monoJ_line _)
+      Finset.univ ConnDof.pan ConnDof.ro ConnDof.ix ConnDof.iy w) v
+
+open Compmech.Asm Compmech.PanelLoop in
+/-- skin–skin connection along `y = const`, assembled (regenerated kernels `fkCSSycte11/12/22`, loop order `i, k, j, l`) -/
+theorem get_k0_conn_psd_ssy (ps : List (Nat × Nat)) (conn : Conn ℝ) (h1 : conn.p1 < ps.length) (h2 : conn.p2 < ps.length)
+    (hne : conn.p1 ≠ conn.p2) (m1 n1 m2 n2 : Nat) (hm1 : ps.getD conn.p1 (0, 0) = (m1, n1))
+    (hm2 : ps.getD conn.p2 (0, 0) = (m2, n2)) (base : CCtx ℝ) (J : ConnIntegrals) (E : ConnEvals)
+    (hk11 : conn.k11 = connNestDiag false m1 n1 0 fun ro co i k j l => SSycte.b11.entry ro co (cctxAt base J E i k j l))
+    (hk12 : conn.k12 = connNest12 false m1 n1 m2 n2 0 0 fun ro co i k j l => SSycte.b12.entry ro co (cctxAt base J E i k j l))
+    (hk22 : conn.k22 = connNestDiag false m2 n2 0 fun ro co i k j l => SSycte.b22.entry ro co (cctxAt base J E i k j l))
+    (hk : base.kt ≠ 0) (hb1 : base.b1 ≠ 0) (hb2 : base.b2 ≠ 0) (hkt : 0 ≤ base.kt) (hkr : 0 ≤ base.kr) (hlen : 0 ≤ base.a1)
+    (Z : Nat → Fld → Pan → Nat → ℝ → ℝ) (z₁ z₂ : ℝ) (hR : RealLineIntegrals J .x Z z₁ z₂) (v : Nat → ℝ) :
+    0 ≤ ∑ r ∈ Finset.range (getSize ps), ∑ c ∈ Finset.range (getSize ps), v r * toFun (k0Conn ps [conn]) r c * v c :=
+  k0Conn_psd_line ps conn h1 h2 hne m1 n1 m2 n2 hm1 hm2 false SSycte.b11.entry SSycte.b12.entry SSycte.b22.entry base J E hk11 hk12 hk22 .x .y base.a1 hlen Z z₁ z₂ hR
+    (ssyOps base) (penaltyW base) (penaltyW_nonneg base hkt hkr)
+    (fun ro co i k j l => ssy_11 (cctxAt base J E i k j l) hk hb1 hb2 ro co)
+    (fun ro co i k j l => ssy_12 (cctxAt base J E i k j l) hk hb1 hb2 ro co)
+    (fun ro co i k j l => ssy_22 (cctxAt base J E i k j l) hk hb1 hb2 ro co) v
+
+open Compmech.Asm Compmech.PanelLoop in
+/-- skin–skin connection along `x = const`, assembled (`fkCSSxcte11/12/22`, loop order `j, l, i, k`) -/
+theorem get_k0_conn_psd_ssx (ps : List (Nat × Nat)) (conn : Conn ℝ) (h1 : conn.p1 < ps.length) (h2 : conn.p2 < ps.length)
+    (hne : conn.p1 ≠ conn.p2) (m1 n1 m2 n2 : Nat) (hm1 : ps.getD conn.p1 (0, 0) = (m1, n1))
+    (hm2 : ps.getD conn.p2 (0, 0) = (m2, n2)) (base : CCtx ℝ) (J : ConnIntegrals) (E : ConnEvals)
+    (hk11 : conn.k11 = connNestDiag true m1 n1 0 fun ro co i k j l => SSxcte.b11.entry ro co (cctxAt base J E i k j l))
+    (hk12 : conn.k12 = connNest12 true m1 n1 m2 n2 0 0 fun ro co i k j l => SSxcte.b12.entry ro co (cctxAt base J E i k j l))
+    (hk22 : conn.k22 = connNestDiag true m2 n2 0 fun ro co i k j l => SSxcte.b22.entry ro co (cctxAt base J E i k j l))
+    (hk : base.kt ≠ 0) (ha1 : base.a1 ≠ 0) (ha2 : base.a2 ≠ 0) (hkt : 0 ≤ base.kt) (hkr : 0 ≤ base.kr) (hlen : 0 ≤ base.b1)
+    (Z : Nat → Fld → Pan → Nat → ℝ → ℝ) (z₁ z₂ : ℝ) (hR : RealLineIntegrals J .y Z z₁ z₂) (v : Nat → ℝ) :
+    0 ≤ ∑ r ∈ Finset.range (getSize ps), ∑ c ∈ Finset.range (getSize ps), v r * toFun (k0Conn ps [conn]) r c * v c :=
+  k0Conn_psd_line ps conn h1 h2 hne m1 n1 m2 n2 hm1 hm2 true SSxcte.b11.entry SSxcte.b12.entry SSxcte.b22.entry base J E hk11 hk12 hk22 .y .x base.b1 hlen Z z₁ z₂ hR
+    (ssxOps base) (penaltyW base) (penaltyW_nonneg base hkt hkr)
+    (fun ro co i k j l => ssx_11 (cctxAt base J E i k j l) hk ha1 ha2 ro co)
+    (fun ro co i k j l => ssx_12 (cctxAt base J E i k j l) hk ha1 ha2 ro co)
+    (fun ro co i k j l => ssx_22 (cctxAt base J E i k j l) hk ha1 ha2 ro co) v
+
+open Compmech.Asm Compmech.PanelLoop in
+/-- base – perpendicular flange along `y = const`, assembled (`fkCBFycte11/12/22`) -/
+theorem get_k0_conn_psd_bfy (ps : List (Nat × Nat)) (conn : Conn ℝ) (h1 : conn.p1 < ps.length) (h2 : conn.p2 < ps.length)
+    (hne : conn.p1 ≠ conn.p2) (m1 n1 m2 n2 : Nat) (hm1 : ps.getD conn.p1 (0, 0) = (m1, n1))
+    (hm2 : ps.getD conn.p2 (0, 0) = (m2, n2)) (base : CCtx ℝ) (J : ConnIntegrals) (E : ConnEvals)
+    (hk11 : conn.k11 = connNestDiag false m1 n1 0 fun ro co i k j l => BFycte.b11.entry ro co (cctxAt base J E i k j l))
+    (hk12 : conn.k12 = connNest12 false m1 n1 m2 n2 0 0 fun ro co i k j l => BFycte.b12.entry ro co (cctxAt base J E i k j l))
+    (hk22 : conn.k22 = connNestDiag false m2 n2 0 fun ro co i k j l => BFycte.b22.entry ro co (cctxAt base J E i k j l))
+    (hk : base.kt ≠ 0) (hb1 : base.b1 ≠ 0) (hb2 : base.b2 ≠ 0) (hkt : 0 ≤ base.kt) (hkr : 0 ≤ base.kr) (hlen : 0 ≤ base.a1)
+    (Z : Nat → Fld → Pan → Nat → ℝ → ℝ) (z₁ z₂ : ℝ) (hR : RealLineIntegrals J .x Z z₁ z₂) (v : Nat → ℝ) :
+    0 ≤ ∑ r ∈ Finset.range (getSize ps), ∑ c ∈ Finset.range (getSize ps), v r * toFun (k0Conn ps [conn]) r c * v c :=
+  k0Conn_psd_line ps conn h1 h2 hne m1 n1 m2 n2 hm1 hm2 false BFycte.b11.entry BFycte.b12.entry BFycte.b22.entry base J E hk11 hk12 hk22 .x .y base.a1 hlen Z z₁ z₂ hR
+    (bfyOps base) (penaltyW base) (penaltyW_nonneg base hkt hkr)
+    (fun ro co i k j l => bfy_11 (cctxAt base J E i k j l) hk hb1 hb2 ro co)
+    (fun ro co i k j l => bfy_12 (cctxAt base J E i k j l) hk hb1 hb2 ro co)
+    (fun ro co i k j l => bfy_22 (cctxAt base J E i k j l) hk hb1 hb2 ro co) v
+
+open Compmech.Asm Compmech.PanelLoop in
+/-- base – perpendicular flange along `x = const`, assembled (`fkCBFxcte11/12/22`, loop order `j, l, i, k`) -/
+theorem get_k0_conn_psd_bfx (ps : List (Nat × Nat)) (conn : Conn ℝ) (h1 : conn.p1 < ps.length) (h2 : conn.p2 < ps.length)
+    (hne : conn.p1 ≠ conn.p2) (m1 n1 m2 n2 : Nat) (hm1 : ps.getD conn.p1 (0, 0) = (m1, n1))
+    (hm2 : ps.getD conn.p2 (0, 0) = (m2, n2)) (base : CCtx ℝ) (J : ConnIntegrals) (E : ConnEvals)
+    (hk11 : conn.k11 = connNestDiag true m1 n1 0 fun ro co i k j l => BFxcte.b11.entry ro co (cctxAt base J E i k j l))
+    (hk12 : conn.k12 = connNest12 true m1 n1 m2 n2 0 0 fun ro co i k j l => BFxcte.b12.entry ro co (cctxAt base J E i k j l))
+    (hk22 : conn.k22 = connNestDiag true m2 n2 0 fun ro co i k j l => BFxcte.b22.entry ro co (cctxAt base J E i k j l))
+    (hk : base.kt ≠ 0) (ha1 : base.a1 ≠ 0) (ha2 : base.a2 ≠ 0) (hkt : 0 ≤ base.kt) (hkr : 0 ≤ base.kr) (hlen : 0 ≤ base.b1)
+    (Z : Nat → Fld → Pan → Nat → ℝ → ℝ) (z₁ z₂ : ℝ) (hR : RealLineIntegrals J .y Z z₁ z₂) (v : Nat → ℝ) :
+    0 ≤ ∑ r ∈ Finset.range (getSize ps), ∑ c ∈ Finset.range (getSize ps), v r * toFun (k0Conn ps [conn]) r c * v c :=
+  k0Conn_psd_line ps conn h1 h2 hne m1 n1 m2 n2 hm1 hm2 true BFxcte.b11.entry BFxcte.b12.entry BFxcte.b22.entry base J E hk11 hk12 hk22 .y .x base.b1 hlen Z z₁ z₂ hR
+    (bfxOps base) (penaltyW base) (penaltyW_nonneg base hkt hkr)
+    (fun ro co i k j l => bfx_11 (cctxAt base J E i k j l) hk ha1 ha2 ro co)
+    (fun ro co i k j l => bfx_12 (cctxAt base J E i k j l) hk ha1 ha2 ro co)
+    (fun ro co i k j l => bfx_22 (cctxAt base J E i k j l) hk ha1 ha2 ro co) v
+
+open Compmech.Asm Compmech.PanelLoop in
+/-- face to face with thickness offset, assembled (`fkCSB11/12/22`; surface penalty over the footprint `a₁ × b₁`) -/
+theorem get_k0_conn_psd_sb (ps : List (Nat × Nat)) (conn : Conn ℝ) (h1 : conn.p1 < ps.length) (h2 : conn.p2 < ps.length)
+    (hne : conn.p1 ≠ conn.p2) (m1 n1 m2 n2 : Nat) (hm1 : ps.getD conn.p1 (0, 0) = (m1, n1))
+    (hm2 : ps.getD conn.p2 (0, 0) = (m2, n2)) (base : CCtx ℝ) (J : ConnIntegrals) (E : ConnEvals)
+    (hk11 : conn.k11 = connNestDiag false m1 n1 0 fun ro co i k j l => SB.b11.entry ro co (cctxAt base J E i k j l))
+    (hk12 : conn.k12 = connNest12 false m1 n1 m2 n2 0 0 fun ro co i k j l => SB.b12.entry ro co (cctxAt base J E i k j l))
+    (hk22 : conn.k22 = connNestDiag false m2 n2 0 fun ro co i k j l => SB.b22.entry ro co (cctxAt base J E i k j l))
+    (ha1 : base.a1 ≠ 0) (hb1 : base.b1 ≠ 0) (hkt : 0 ≤ base.kt) (hab : 0 ≤ base.a1 * base.b1)
+    (X Y : Nat → Fld → Pan → Nat → ℝ → ℝ) (x₁ x₂ y₁ y₂ : ℝ) (hR : RealSurfIntegrals J X Y x₁ x₂ y₁ y₂) (v : Nat → ℝ) :
+    0 ≤ ∑ r ∈ Finset.range (getSize ps), ∑ c ∈ Finset.range (getSize ps), v r * toFun (k0Conn ps [conn]) r c * v c :=
+  k0Conn_psd_surf ps conn h1 h2 hne m1 n1 m2 n2 hm1 hm2 false SB.b11.entry SB.b12.entry SB.b22.entry base J E hk11 hk12 hk22 hab X Y x₁ x₂ y₁ y₂ hR
+    (sbOps base) (sbW base) (sbW_nonneg base hkt)
+    (fun ro co i k j l => sb_11 (cctxAt base J E i k j l) ha1 hb1 ro co)
+    (fun ro co i k j l => sb_12 (cctxAt base J E i k j l) ha1 hb1 ro co)
+    (fun ro co i k j l => sb_22 (cctxAt base J E i k j l) ha1 hb1 ro co) v
+
+open Compmech.Asm Compmech.PanelLoop ConnPSDExample in
+/-- non-vacuity: three panels of differing series orders, the connection listed with `p1` (the LAST panel) AFTER `p2` (the first), so the
+coupling block is the transposed one; every hypothesis instantiated with the concrete data of `ConnPSDExample` -/
+example (v : Nat → ℝ) :
+    0 ≤ ∑ r ∈ Finset.range 27, ∑ c ∈ Finset.range 27, v r *
+      toFun (k0Conn [(2, 1), (1, 3), (2, 2)]
+        [⟨2, 0,
+          connNestDiag false 2 2 0 fun ro co i k j l => SSycte.b11.entry ro co (cctxAt unitConn monoJ monoE i k j l),
+          connNest12 false 2 2 2 1 0 0 fun ro co i k j l => SSycte.b12.entry ro co (cctxAt unitConn monoJ monoE i k j l),
+          connNestDiag false 2 1 0 fun ro co i k j l => SSycte.b22.entry ro co (cctxAt unitConn monoJ monoE i k j l)⟩]) r c * v c :=
+  get_k0_conn_psd_ssy [(2, 1), (1, 3), (2, 2)] _ (by decide) (by decide) (by decide) 2 2 2 1 rfl rfl unitConn monoJ monoE rfl rfl rfl
+    (by norm_num [unitConn]) (by norm_num [unitConn]) (by norm_num [unitConn]) (by norm_num [unitConn]) (by norm_num [unitConn])
+    (by norm_num [unitConn]) mono (-1) 1 (monoJ_line _) v
+
+open Compmech.Asm Compmech.PanelLoop ConnPSDExample in
+example (v : Nat → ℝ) :
+    0 ≤ ∑ r ∈ Finset.range 27, ∑ c ∈ Finset.range 27, v r *
+      toFun (k0Conn [(2, 1), (1, 3), (2, 2)]
+        [⟨2, 0,
+          connNestDiag true 2 2 0 fun ro co i k j l => SSxcte.b11.entry ro co (cctxAt unitConn monoJ monoE i k j l),
+          connNest12 true 2 2 2 1 0 0 fun ro co i k j l => SSxcte.b12.entry ro co (cctxAt unitConn monoJ monoE i k j l),
+          connNestDiag true 2 1 0 fun ro co i k j l => SSxcte.b22.entry ro co (cctxAt unitConn monoJ monoE i k j l)⟩]) r c * v c :=
+  get_k0_conn_psd_ssx [(2, 1), (1, 3), (2, 2)] _ (by decide) (by decide) (by decide) 2 2 2 1 rfl rfl unitConn monoJ monoE rfl rfl rfl
+    (by norm_num [unitConn]) (by norm_num [unitConn]) (by norm_num [unitConn]) (by norm_num [unitConn]) (by norm_num [unitConn])
+    (by norm_num [unitConn]) mono (-1) 1 (monoJ_line _) v
+
+open Compmech.Asm Compmech.PanelLoop ConnPSDExample in
+example (v : Nat → ℝ) :
+    0 ≤ ∑ r ∈ Finset.range 27, ∑ c ∈ Finset.range 27, v r *
+      toFun (k0Conn [(2, 1), (1, 3), (2, 2)]
+        [⟨2, 0,
+          connNestDiag false 2 2 0 fun ro co i k j l => BFycte.b11.entry ro co (cctxAt unitConn monoJ monoE i k j l),
+          connNest12 false 2 2 2 1 0 0 fun ro co i k j l => BFycte.b12.entry ro co (cctxAt unitConn monoJ monoE i k j l),
+          connNestDiag false 2 1 0 fun ro co i k j l => BFycte.b22.entry ro co (cctxAt unitConn monoJ monoE i k j l)⟩]) r c * v c :=
+  get_k0_conn_psd_bfy [(2, 1), (1, 3), (2, 2)] _ (by decide) (by decide) (by decide) 2 2 2 1 rfl rfl unitConn monoJ monoE rfl rfl rfl
+    (by norm_num [unitConn]) (by norm_num [unitConn]) (by norm_num [unitConn]) (by norm_num [unitConn]) (by norm_num [unitConn])
+    (by norm_num [unitConn]) mono (-1) 1 (monoJ_line _) v
+
+open Compmech.Asm Compmech.PanelLoop ConnPSDExample in
+example (v : Nat → ℝ) :
+    0 ≤ ∑ r ∈ Finset.range 27, ∑ c ∈ Finset.range 27, v r *
+      toFun (k0Conn [(2, 1), (1, 3), (2, 2)]
+        [⟨2, 0,
+          connNestDiag true 2 2 0 fun ro co i k j l => BFxcte.b11.entry ro co (cctxAt unitConn monoJ monoE i k j l),
+          connNest12 true 2 2 2 1 0 0 fun ro co i k j l => BFxcte.b12.entry ro co (cctxAt unitConn monoJ monoE i k j l),
+          connNestDiag true 2 1 0 fun ro co i k j l => BFxcte.b22.entry ro co (cctxAt unitConn monoJ monoE i k j l)⟩]) r c * v c :=
+  get_k0_conn_psd_bfx [(2, 1), (1, 3), (2, 2)] _ (by decide) (by decide) (by decide) 2 2 2 1 rfl rfl unitConn monoJ monoE rfl rfl rfl
+    (by norm_num [unitConn]) (by norm_num [unitConn]) (by norm_num [unitConn]) (by norm_num [unitConn]) (by norm_num [unitConn])
+    (by norm_num [unitConn]) mono (-1) 1 (monoJ_line _) v
+
+open Compmech.Asm Compmech.PanelLoop ConnPSDExample in
+/-- … and a face-to-face (`SB`) connection between the second and the third panel, in the listed order -/
+example (v : Nat → ℝ) :
+    0 ≤ ∑ r ∈ Finset.range 27, ∑ c ∈ Finset.range 27, v r *
+      toFun (k0Conn [(2, 1), (1, 3), (2, 2)]
+        [⟨1, 2,
+          connNestDiag false 1 3 0 fun ro co i k j l => SB.b11.entry ro co (cctxAt unitConn monoJ monoE i k j l),
+          connNest12 false 1 3 2 2 0 0 fun ro co i k j l => SB.b12.entry ro co (cctxAt unitConn monoJ monoE i k j l),
+          connNestDiag false 2 2 0 fun ro co i k j l => SB.b22.entry ro co (cctxAt unitConn monoJ monoE i k j l)⟩]) r c * v c :=
+  get_k0_conn_psd_sb [(2, 1), (1, 3), (2, 2)] _ (by decide) (by decide) (by decide) 1 3 2 2 rfl rfl unitConn monoJ monoE rfl rfl rfl
+    (by norm_num [unitConn]) (by norm_num [unitConn]) (by norm_num [unitConn]) (by norm_num [unitConn])
+    mono mono (-1) 1 (-1) 1 monoJ_surf v
+
+open Compmech.Asm in
+/-- SEVERAL connections: `get_k0_conn()` of an assembly with any list of connections is the SUM of the finalized matrices of the single
+connections (each its own three placed blocks), and is positive semi-definite as soon as each of them is (`get_k0_conn_psd*`) -/
+theorem get_k0_conn_psd_all (ps : List (Nat × Nat)) (conns : List (Conn ℝ)) :
+    (∀ r c, toFun (k0Conn ps conns) r c = (conns.map fun cn => toFun (k0Conn ps [cn]) r c).sum) ∧
+    ((∀ cn ∈ conns, ∀ v : Nat → ℝ,
+        0 ≤ ∑ r ∈ Finset.range (getSize ps), ∑ c ∈ Finset.range (getSize ps), v r * toFun (k0Conn ps [cn]) r c * v c) →
+      ∀ v : Nat → ℝ,
+        0 ≤ ∑ r ∈ Finset.range (getSize ps), ∑ c ∈ Finset.range (getSize ps), v r * toFun (k0Conn ps conns) r c * v c) :=
+  ⟨fun r c => k0Conn_sum ps conns r c, fun h v => k0Conn_psd_of_each ps conns h v⟩
+
+open Compmech.Asm Compmech.PanelLoop ConnPSDExample in
+/-- non-vacuity: the three-panel assembly with BOTH connections of the examples above (`SSycte` between the last and the first panel,
+`SB` between the second and the third) -/
+example (v : Nat → ℝ) :
+    0 ≤ ∑ r ∈ Finset.range 27, ∑ c ∈ Finset.range 27, v r *
+      toFun (k0Conn [(2, 1), (1, 3), (2, 2)]
+        [⟨2, 0,
+          connNestDiag false 2 2 0 fun ro co i k j l => SSycte.b11.entry ro co (cctxAt unitConn monoJ monoE i k j l),
+          connNest12 false 2 2 2 1 0 0 fun ro co i k j l => SSycte.b12.entry ro co (cctxAt unitConn monoJ monoE i k j l),
+          connNestDiag false 2 1 0 fun ro co i k j l => SSycte.b22.entry ro co (cctxAt unitConn monoJ monoE i k j l)⟩,
+         ⟨1, 2,
+          connNestDiag false 1 3 0 fun ro co i k j l => SB.b11.entry ro co (cctxAt unitConn monoJ monoE i k j l),
+          connNest12 false 1 3 2 2 0 0 fun ro co i k j l => SB.b12.entry ro co (cctxAt unitConn monoJ monoE i k j l),
+          connNestDiag false 2 2 0 fun ro co i k j l => SB.b22.entry ro co (cctxAt unitConn monoJ monoE i k j l)⟩]) r c * v c := by
+  refine (get_k0_conn_psd_all [(2, 1), (1, 3), (2, 2)] _).2 ?_ v
+  intro cn hcn w
+  simp only [List.mem_cons, List.not_mem_nil, or_false] at hcn
+  rcases hcn with rfl | rfl
+  · exact get_k0_conn_psd_ssy [(2, 1), (1, 3), (2, 2)] _ (by decide) (by decide) (by decide) 2 2 2 1 rfl rfl unitConn monoJ monoE
+      rfl rfl rfl (by norm_num [unitConn]) (by norm_num [unitConn]) (by norm_num [unitConn]) (by norm_num [unitConn])
+      (by norm_num [unitConn]) (by norm_num [unitConn]) mono (-1) 1 (monoJ_line _) w
+  · exact get_k0_conn_psd_sb [(2, 1), (1, 3), (2, 2)] _ (by decide) (by decide) (by decide) 1 3 2 2 rfl rfl unitConn monoJ monoE
+      rfl rfl rfl (by norm_num [unitConn]) (by norm_num [unitConn]) (by norm_num [unitConn]) (by norm_num [unitConn])
+      mono mono (-1) 1 (-1) 1 monoJ_surf w
 
 /-! ### the penalty constants `calc_kt_kr` (hand model `Model/PenaltyConstants.lean`, driver-tied to `penalty_constants.py`) -/
 open Compmech.Penalty
